@@ -121,7 +121,8 @@ def stream_letters(seq):
   return L
 
 
-HUB_LETTERS = [("use",), ("hpeek", None), ("hpeek", 2), ("hpeek", 5), ("hcopy",),
+HUB_LETTERS = [("use",), ("hpeek", None), ("hpeek", 0), ("hpeek", 2), ("hpeek", 2.6),
+               ("hpeek", 5), ("hpeek", "inf"), ("hcopy",),
                ("hmap",), ("hfilter",), ("hskip", 1), ("hlimit", 1),
                ("happend",), ("htake",)]
 
@@ -161,6 +162,8 @@ class World(object):
         seq, left = val
         for l in HUB_LETTERS:
           if l[0] == "hfilter" and not (seq.finite or any(ODD(v) for v in seq.cycle)):
+            continue
+          if l == ("hpeek", "inf") and not seq.finite:
             continue
           if len(self.model) >= 5 and l[0] != "htake" and not l[0].startswith("hpeek"):
             continue
@@ -297,11 +300,15 @@ class World(object):
     if name == "htake":
       return "AttributeError", self._obs(lambda: t.take())
     if name == "hpeek":
+      if arg == "inf":
+        arg = inf
       if left == 0:
         return "IndexError", self._obs(lambda: t.peek(arg) if arg is not None else t.peek())
       if arg is None:
         got, _ = seq.take(1)
         exp = got[0] if got else "StopIteration"
+      elif arg == inf:
+        exp = list(seq.items)
       else:
         exp, _ = seq.take(cnt_take(arg))
       return exp, self._obs(lambda: t.peek(arg) if arg is not None else t.peek())
@@ -348,8 +355,11 @@ class World(object):
       r = self.real[h]
       if kind == "s":
         if val.finite:
+          # bounded drain: a handle that wrongly became endless must fail fast
           exp = list(val.items)
-          obs = self._obs(lambda: list(r))
+          obs = self._obs(lambda: r.take(len(exp) + 3))
+          if obs == exp:
+            obs = self._obs(lambda: list(r)) or exp
         else:
           exp, _ = val.take(6)
           obs = self._obs(lambda: r.take(6))
@@ -360,7 +370,7 @@ class World(object):
         for u in range(left):
           if seq.finite:
             exp = list(seq.items)
-            obs = self._obs(lambda: list(Stream(r)))
+            obs = self._obs(lambda: Stream(r).take(len(exp) + 3))
           else:
             exp, _ = seq.take(6)
             obs = self._obs(lambda: Stream(r).take(6))
@@ -470,7 +480,7 @@ def run_noniter(case):
 
 
 KINDS = OrderedDict([
-  ("hist", Kind(None, run_hist, chunk=16, timeout=60,
+  ("hist", Kind(None, run_hist, chunk=16, timeout=15,
                 rule="one case = one state (history); every enabled letter applied from it, then all handles drained")),
   ("noniter", Kind(gen_noniter, run_noniter, rule="thub(x, n) is x for non-iterables")),
 ])
